@@ -8,6 +8,7 @@ transaction survives every crash and an uncommitted one is invisible is the jour
 contract, validated on recorded disk traces by the crash harness (C01) — listed as pending for
 C18 until the kvs crash run exists.
 -/
+import GoNfsd.Lemmas.Reveal
 import GoNfsd.Model.Kvs
 import GoNfsd.Lemmas.ObjLog
 import GoNfsd.Gen.Skeleton
@@ -140,5 +141,37 @@ theorem acknowledged_put_is_durable_whatever_was_refused (es es' : List GoNfsd.M
 /-- ... and no function of /repo (the KVS included) calls the shared `Flush()`, which would depend
     on the remembered position (the seeded change C18h makes `MultiPut` do so). Regenerated. -/
 theorem kvs_does_not_rely_on_the_remembered_position : GoNfsd.Gen.Skeleton.flushCallers = [] := by decide
+
+/-! ### a get returns only what a crash cannot take back -/
+
+/-- `MultiPut` and `Get` take the locks of their keys before they touch the journal and give them
+    back after `CommitWait(true)` has returned (table regenerated from kvs/kvs.go on every run):
+    the discipline of model M11, and the ownership the journal requires of concurrent transactions. -/
+theorem kvs_holds_the_locks_across_the_waiting_commit :
+    ∀ f ∈ GoNfsd.Gen.Skeleton.kvsLockUses, GoNfsd.Model.Skeleton.simpleCheck f = true := by decide
+
+/-- the rule bites on what the code was before the repair (no locks at all: a `Get` beside a
+    `MultiPut` returned the new value before it was on disk), and the table is not empty -/
+example : GoNfsd.Model.Skeleton.simpleCheck ("Get", false, [(3, "true")]) = false := by decide
+example : ("Get", false, [(0, ""), (3, "true"), (1, "")]) ∈ GoNfsd.Gen.Skeleton.kvsLockUses := by decide
+
+/-- why: under that discipline, in every state reachable by any interleaving of puts and gets (the
+    journal's logger running in the background), the value a `Get` reads under the key's lock is the
+    value the recovered store has after a crash at that moment: no `Get` ever returns the value of a
+    put that a crash can still undo (the store has no unstable writes). -/
+theorem kvs_gets_return_only_durable_values (ops : List GoNfsd.Model.Reveal.Op) (s : GoNfsd.Model.Reveal.St) (t k : Nat)
+    (hd : GoNfsd.Model.Reveal.Disciplined GoNfsd.Model.Reveal.empty ops)
+    (hr : GoNfsd.Model.Reveal.run GoNfsd.Model.Reveal.empty ops = some s)
+    (hl : s.lock k = some t) (hp : ∀ c ∈ s.pend, c.1 ≠ t) (hu : ∀ c ∈ s.pend, c.2.1 = false) :
+    s.read k = s.recovered k :=
+  GoNfsd.Model.Reveal.read_is_recovered s t k
+    (GoNfsd.Model.Reveal.run_inv ops _ s GoNfsd.Model.Reveal.empty_inv hd hr) hl hp
+    (fun c hc h1 => by rw [hu c hc] at h1; cases h1)
+
+/-- without the locks (the defect): the put is appended, the get reads generation 7, the crash
+    recovers nothing — the reader needs no lock, so nothing makes it wait for the flush -/
+example : ∃ s, GoNfsd.Model.Reveal.run GoNfsd.Model.Reveal.empty
+      [.acquire 1 5, .commit 1 [(5, 7)] false false, .release 1 5] = some s ∧
+    s.read 5 = some 7 ∧ s.recovered 5 = none := ⟨_, rfl, rfl, rfl⟩
 
 end GoNfsd.Props.C18
